@@ -12,6 +12,31 @@ CLAIMED = {
         note="Trusted: Coq kernel; hand-written model lib/Memo.v + model/IpModel.v tied by the correspondence run (sampled); lib/Md5.v; ipaddress option parsing not modelled. Axioms: none.",
         technique="Coq proof (induction over bit strings and request histories) + model/implementation correspondence via extracted OCaml",
         ref="DESIGN.md section 6, C01"),
+    "C02": dict(
+        text="Coq theorems: both inverses hold for every flip function/width/host bits/preserved list; a freshly constructed instance satisfies the memo invariant and from any state satisfying it every undo/anonymize request returns the pure pre-image/image without raising. The model is tied to /repo by a differential run in which each side undoes its own images on a cold instance.",
+        note="File-level --undo (text) is covered by the text-pipeline checks when built; trusted: Coq kernel, hand model + correspondence (sampled), lib/Md5.v. Axioms: none.",
+        technique="Coq proof (inverse lemmas + memo invariant by induction over histories) + per-side cold-undo correspondence",
+        ref="DESIGN.md section 6, C02"),
+    "C03": dict(
+        text="Coq theorem: for every finite request history (any interleaving of anonymize/undo, any repetition) on a fresh or any reachable memo, each answer equals the history-free function; corollary: the same request gets the same answer in any two histories. Correspondence compares, per request, the answer inside a history with the answer of a fresh instance, on both sides.",
+        note="Trusted: Coq kernel; hand model lib/Memo.v tied by correspondence; file/run level partitioning is covered through anonymize_files in C16/C17 checks. Axioms: none.",
+        technique="Coq proof (invariant of the shared bidict memo, induction over request histories) + history-vs-fresh correspondence",
+        ref="DESIGN.md section 6, C03"),
+    "C04": dict(
+        text="Coq theorems for every flip function, width, B and preserved list: inside stays inside, outside stays outside, last B bits verbatim, leading bits independent of host bits (also for undo); the default list read from the source equals classes A-E + RFC 1918 (decided on the generated constants).",
+        note="Trusted: Coq kernel; hand model + correspondence on membership/suffix observations; gen/G_ip_consts.v; option-string parsing by ipaddress not modelled. Axioms: none.",
+        technique="Coq proof (pinned-node lemmas over bit strings) + generated constants + membership correspondence",
+        ref="DESIGN.md section 6, C04"),
+    "C05": dict(
+        text="Coq theorem is_mask_spec for all 2^32 values (accepts exactly ones-then-zeros / zeros-then-ones), should_anonymize characterisation on the model, and no-collision: preserved networks are registered as preserved prefixes by the constructor so outside never maps inside, for every salt/B/list.",
+        note="Trusted: Coq kernel; hand model of _is_mask/should_anonymize/__init__ tied by correspondence (all 66 masks, all one-bit perturbations, random values; network boundary addresses). Text-level 'appear exactly as written' is covered with the text pipeline (C06/C12). Axioms: none.",
+        technique="Coq proof (bit-level characterisation of the mask test; pinned-prefix no-collision) + correspondence",
+        ref="DESIGN.md section 6, C05"),
+    "C18": dict(
+        text="Coq theorems over the tables regenerated from the source: encrypt-then-decrypt is the identity for every plaintext over 0..255 and every salt string (guard: non-empty plaintext or family-0 salt, the guard's necessity proved as a refutation), output well-formed, decrypt fails only with ValueError.",
+        note="Trusted: Coq kernel incl. vm_compute for the 7x65x256 sweep; gen/G_juniper.v; hand model tied by correspondence incl. a malformed stream and an independent decoder. Known finding D17 (empty plaintext). Axioms: none.",
+        technique="Coq proof (finite per-character sweep lifted to all plaintexts by induction) over generated tables + correspondence",
+        ref="DESIGN.md section 6, C18"),
 }
 NA_REASON = "check not built yet in this round (work in progress; see DESIGN.md section 9 for the order of work)"
 
